@@ -3,6 +3,8 @@
 From V.lib Require Import Base.
 From V.c05 Require Import C05Model C05FragModel C05GhostProofs C05RoundProofs C05SegModel C05SegProofs.
 From V.c05 Require Import C05CodecModel C05CodecProofs C05OptProofs C05ReadProofs C05SegCodecModel C05SegCodecProofs.
+From Coq Require Import Permutation.
+From V.c05 Require Import C05HistProofs C05LazyProofs C05SingleProofs C05EmsgModel C05EmsgProofs C05SegAnyProofs C05SidxProofs.
 
 (* DecodeFile / DecodeFileSR on the box stream of a segment (nothing or styp followed by any sidx boxes, then the
    fragments, each with emsg / ignored boxes before its moof, after its mdat and between the fragments, ANY sizes)
@@ -182,3 +184,180 @@ Theorem C05_mixed_modes_refuted :
      seg_get_full (item_dfr 0 (mkEitem [] fe [] [] [])) None <> Ok [mkFull (mkSample 0 10 2 0) 0 [1; 2]; mkFull (mkSample 0 10 3 0) 10 [7; 8; 9]]).
 Proof. exact mixed_modes_refuted. Qed.
 Print Assumptions C05_mixed_modes_refuted.
+
+(* ---------------------------------------------------------------- AddEmsg / AddChild inside the histories *)
+
+(* ANY interleaving of the six sample additions with Fragment.AddEmsg and Fragment.AddChild (boxes other than moof /
+   mdat) on a fragment whose children are p0 ++ [moof; mdat] ++ q0 (l_start; p0 = boxes put in front directly, e.g. a
+   prft): unless a sample addition panics, the children are pre ++ [moof; mdat] ++ q0 ++ (the AddChild boxes in call
+   order), where pre is a permutation of p0 and the emsg boxes added with AddEmsg (each inserted behind the last emsg in
+   front of the moof), of total size xsum p0 + their sizes.  AddEmsg itself cannot fail (lstep).  After fix 8f3ca14. *)
+Theorem C05_emsg_layout : forall fr p0 q0 ops cls st',
+  run_lops (l_start fr p0 q0) ops = (cls, Some st') ->
+  exists pre, l_children st' = shaped pre (q0 ++ lops_children ops) /\
+              Permutation pre (p0 ++ lops_emsgs ops) /\ xsum pre = xsum p0 + xsum (lops_emsgs ops) /\
+              pre_of (l_children st') = pre /\ post_of (l_children st') = q0 ++ lops_children ops.
+Proof. exact emsg_layout. Qed.
+Print Assumptions C05_emsg_layout.
+
+(* C05_segment_roundtrip for fragments built by such interleaved histories (lhist: CreateMultiTrackFragment, boxes p0
+   in front, q0 behind, then any interleaving of AddFullSampleToTrack, AddEmsg and AddChild; lhist_fhist = the boxes
+   that end up in front of the moof / behind the mdat + the sample additions): the fragment the interleaved history
+   builds (l_sync of its final state) encodes, the stream decodes, and the track reads back exactly the added samples *)
+Theorem C05_segment_roundtrip_emsg : forall head opt b pos0 tx lhs frs fes,
+  head_ok head = true -> Forall lhist_ok lhs ->
+  Forall2 (fun h fr => exists cls st', run_lops (lhist_start h) (lh_ops h) = (cls, Some st') /\ fr = l_sync st') lhs frs ->
+  encode_frags opt frs = Ok fes ->
+  Forall2 frag_guard frs fes ->
+  Forall (fun h => consistent (added_fulls (lh_tracks h) (tx_track tx) (lops_samples (lh_ops h)))) lhs ->
+  let its := hist_items (map lhist_fhist lhs) fes in
+  pos0 + stream_size (seg_stream head its) < POSB ->
+  forallb item_framed its = true /\
+  exists st, seg_decode b pos0 (seg_stream head its) = Ok st /\
+    length (file_frags st) = length lhs /\
+    seg_read st (Some tx) = Ok (flat_map (fun h => added_fulls (lh_tracks h) (tx_track tx) (lops_samples (lh_ops h))) lhs).
+Proof. exact segment_roundtrip_emsg. Qed.
+Print Assumptions C05_segment_roundtrip_emsg.
+
+(* the text of AddEmsg before fix 8f3ca14 (add_emsg_pinned, capacity of the Children slice as a parameter):
+   CreateFragment; AddChild(emsg) gives children moof, mdat, emsg with capacity 4; AddEmsg puts the new emsg BEHIND the
+   mdat (nothing in front of the moof), a second AddEmsg panics (slice bounds out of range), as does AddEmsg on a
+   fragment without children; the repaired text puts both in front of the moof.  Finding C05-F9 (fixed). *)
+Theorem C05_add_emsg_pinned_refuted :
+  (exists cs1, add_emsg_pinned 4 [KMoof; KMdat; KX EMSG60] EMSG60 = Ok cs1 /\ pre_of cs1 = [] /\
+               add_emsg_pinned 4 cs1 EMSG60 = Panic) /\
+  add_emsg_pinned 0 [] EMSG60 = Panic /\
+  add_emsg [] EMSG60 = [KX EMSG60] /\
+  pre_of (add_emsg (add_emsg [KMoof; KMdat; KX EMSG60] EMSG60) EMSG60) = [EMSG60; EMSG60].
+Proof. exact add_emsg_pinned_refuted. Qed.
+Print Assumptions C05_add_emsg_pinned_refuted.
+
+(* the hypotheses are satisfiable: tracks [1;2], a prft put in front, AddEmsg before / between / after the sample
+   additions, an emsg and a free box appended with AddChild; the children end up emsg emsg emsg prft moof mdat emsg free *)
+Example C05_segment_roundtrip_emsg_ex :
+  let s k := mkSample 16842752 10 k 0 in
+  let em n := mkX XEmsg n 0 [] in
+  let other n := mkX XOther n 0 [] in
+  let h := mkLhist [1; 2] [other 32] 0 [] []
+             [LEmsg (em 60); LSample (OFullTo 2 (s 1) 100 [1]); LChild (em 61); LEmsg (em 62);
+              LSample (OFullTo 1 (s 2) 0 [2; 3]); LChild (other 8); LEmsg (em 63)] [] in
+  lhist_ok h /\
+  exists cls st', run_lops (lhist_start h) (lh_ops h) = (cls, Some st') /\
+    l_children st' = shaped [em 60; em 62; em 63; other 32] [em 61; other 8] /\
+    fh_pre (lhist_fhist h) = [em 60; em 62; em 63; other 32] /\ fr_pre (l_sync st') = 217.
+Proof.
+  cbv zeta. split.
+  { split; [|split; [|split; [|split; [|repeat split; reflexivity]]]].
+    - apply NoDup_cons; [cbn; intuition congruence|apply NoDup_cons; [cbn; tauto|apply NoDup_nil]].
+    - cbn; lia.
+    - reflexivity.
+    - repeat constructor. }
+  eexists; eexists. split; [vm_compute; reflexivity|]. split; [reflexivity|]. split; reflexivity.
+Qed.
+
+(* ---------------------------------------------------------------- segments of ANY mix of fragment classes *)
+
+(* frag_case opt tx it e: `it` is one encoded fragment of a class with a per-fragment round-trip theorem, reading back e
+   for trex tx: FC_multi (C05_roundtrip: multi-track, AddFullSampleToTrack), FC_multi_nil (nil trex: the first traf),
+   FC_multi_lazy (AddSampleToTrack, the caller writes the data behind the fragment), FC_single (CreateFragment + ALL SIX
+   add operations in one data mode: full samples / metadata only / sample intervals).  For ANY list of such fragments in
+   any mix, head = nothing or styp + any sidx boxes, with or without init, any position: the stream is well framed,
+   DecodeFile yields one fragment per encoded fragment and reading fragment by fragment returns the concatenation. *)
+Theorem C05_segment_roundtrip_any : forall head opt b pos0 tx its exps,
+  head_ok head = true -> Forall2 (frag_case opt tx) its exps ->
+  pos0 + stream_size (seg_stream head its) < POSB ->
+  forallb item_framed its = true /\
+  exists st, seg_decode b pos0 (seg_stream head its) = Ok st /\
+             length (file_frags st) = length its /\ seg_read st tx = Ok (concat exps).
+Proof. exact segment_roundtrip_any. Qed.
+Print Assumptions C05_segment_roundtrip_any.
+
+(* the hypotheses are satisfiable: a single-track fragment built with AddSampleInterval (data parts) followed by a
+   multi-track fragment of metadata-only samples whose data the caller writes behind it *)
+Example C05_segment_roundtrip_any_ex :
+  let s k := mkSample 16842752 10 k 0 in
+  let x := mkTrex 1 7 9 65536 in
+  let h1 := mkFhist [1] [mkX XEmsg 60 0 []] 0 [mkX XOther 12 0 []] [] [OInterval 50 [s 1; s 2] [1; 2; 3]] [] in
+  let h2 := mkFhist [2; 1] [] 0 [] [] [OFullTo 1 (s 2) 70 [4; 5]; OFullTo 2 (s 1) 0 [6]] [mkX XOther 8 0 []] in
+  exists its exps, Forall2 (frag_case true (Some x)) its exps /\ length its = 2%nat /\
+    concat exps = [mkFull (s 1) 50 [1]; mkFull (s 2) 60 [2; 3]; mkFull (s 2) 70 [4; 5]].
+Proof.
+  cbv zeta. eexists; eexists. split.
+  - constructor; [|constructor; [|constructor]].
+    + eapply (FC_single true 1 (mkFhist [1] [mkX XEmsg 60 0 []] 0 [mkX XOther 12 0 []] [] [OInterval 50 [mkSample 16842752 10 1 0; mkSample 16842752 10 2 0] [1; 2; 3]] [])
+                _ _ _ (mkTrex 1 7 9 65536) [mkFull (mkSample 16842752 10 1 0) 50 [1]; mkFull (mkSample 16842752 10 2 0) 60 [2; 3]] []).
+      * reflexivity.
+      * left; reflexivity.
+      * repeat constructor.
+      * vm_compute; reflexivity.
+      * right. right. repeat split; reflexivity.
+      * reflexivity.
+      * repeat constructor.
+      * discriminate.
+      * vm_compute; reflexivity.
+      * vm_compute; reflexivity.
+      * reflexivity.
+    + eapply (FC_multi_lazy true (mkFhist [2; 1] [] 0 [] [] [OFullTo 1 (mkSample 16842752 10 2 0) 70 [4; 5]; OFullTo 2 (mkSample 16842752 10 1 0) 0 [6]] [mkX XOther 8 0 []])
+                _ _ _ (mkTrex 1 7 9 65536)).
+      * split; [|split; [|split; [|split; [|reflexivity]]]].
+        -- apply NoDup_cons; [cbn; intuition congruence|apply NoDup_cons; [cbn; tauto|apply NoDup_nil]].
+        -- cbn; lia.
+        -- reflexivity.
+        -- repeat constructor.
+      * reflexivity.
+      * vm_compute; reflexivity.
+      * vm_compute; reflexivity.
+      * vm_compute; reflexivity.
+      * cbn; repeat constructor.
+  - split; reflexivity.
+Qed.
+
+(* ---------------------------------------------------------------- sidx boxes without a styp *)
+
+(* head = sidx boxes only: the File collects them and starts a new MediaSegment at every emsg / moof whose position is
+   the start of the next reference.  sidx_guard (computed on positions and references alone) says that no segment is
+   started while a fragment opened by an emsg still waits for its moof, and that the stream does not end in such a
+   fragment; under it DecodeFile regroups the stream into exactly the encoded fragments ... *)
+Theorem C05_segment_decode_sidx : forall head its b pos0,
+  forallb is_sidx_box head = true -> forallb item_kinds its = true ->
+  sidx_guard (head_sidxs pos0 head) its (pos0 + xsum head) 0 false = true ->
+  exists st, seg_decode b pos0 (seg_stream head its) = Ok st /\
+             file_frags st = items_dfrs (pos0 + xsum head) its.
+Proof. exact decode_stream_sidx. Qed.
+Print Assumptions C05_segment_decode_sidx.
+
+(* ... and the round trip of any mix of fragment classes holds as with a styp *)
+Theorem C05_segment_roundtrip_any_sidx : forall head opt b pos0 tx its exps,
+  forallb is_sidx_box head = true ->
+  sidx_guard (head_sidxs pos0 head) its (pos0 + xsum head) 0 false = true ->
+  Forall2 (frag_case opt tx) its exps ->
+  pos0 + stream_size (seg_stream head its) < POSB ->
+  forallb item_framed its = true /\
+  exists st, seg_decode b pos0 (seg_stream head its) = Ok st /\
+             length (file_frags st) = length its /\ seg_read st tx = Ok (concat exps).
+Proof. exact segment_roundtrip_any_sidx. Qed.
+Print Assumptions C05_segment_roundtrip_any_sidx.
+
+(* the guard is needed: a sidx whose first reference starts at the emsg in front of a moof and whose second reference
+   starts at that moof makes DecodeFile open a fragment at the emsg and a NEW segment at the moof: the file then holds a
+   fragment without moof, and reading the fragments in order panics in GetFullSamples (a hand-made sidx; outside the
+   property: the library's own writers reference whole fragments) *)
+Theorem C05_sidx_guard_refuted :
+  let head := [mkX XSidx 56 0 [mkSref 0 60; mkSref 0 500]] in
+  let its := [mkEitem [mkX XEmsg 60 0 []] wit_fe [] [] []] in
+  forallb is_sidx_box head = true /\ forallb item_kinds its = true /\ forallb item_framed its = true /\
+  sidx_guard (head_sidxs 0 head) its 56 0 false = false /\
+  exists st, seg_decode false 0 (seg_stream head its) = Ok st /\
+             map (fun f => match dr_moof f with Some _ => true | None => false end) (file_frags st) = [false; true] /\
+             seg_read st None = Panic.
+Proof. exact sidx_guard_refuted. Qed.
+Print Assumptions C05_sidx_guard_refuted.
+
+(* the guard is satisfiable by a truthful sidx: two fragments (the second with an emsg in front), one reference per
+   fragment with its byte length: two segments of one fragment each *)
+Example C05_sidx_guard_ex :
+  let head := [mkX XSidx 56 0 [mkSref 0 (stream_size (item_boxes (mkEitem [] wit_fe [] [] []))); mkSref 0 500]] in
+  let its := [mkEitem [] wit_fe [] [] []; mkEitem [mkX XEmsg 60 0 []] wit_fe [] [] []] in
+  sidx_guard (head_sidxs 700 head) its (700 + xsum head) 0 false = true /\
+  exists st, seg_decode true 700 (seg_stream head its) = Ok st /\ length (fs_segs st) = 2%nat /\ length (file_frags st) = 2%nat.
+Proof. cbv zeta. split; [vm_compute; reflexivity|]. eexists. split; [vm_compute; reflexivity|]. split; reflexivity. Qed.
